@@ -488,104 +488,184 @@ Proof.
   rewrite D. destruct (c_cli cfg); [reflexivity|]. rewrite cnt_eqb_refl. reflexivity.
 Qed.
 
-(* ------------------------------------------------------------------ the repeat loop and the returned value *)
-Definition rep_model (cfg : config) (tests : list test) : rep_obs := rep_obs_of cfg (rep_state cfg tests) ONormal.
-
-Lemma runner_loop_closed exc cfg tests :
-  throws_ok exc cfg tests = true ->
-  forall n s ft fe, good s ->
-  let c := rep_counts cfg (number 0%N tests) in
-  exists s', good s' /\
-    runner_loop exc cfg tests n s ft fe =
-    (repeat (rep_model cfg tests) n, s', (ft + N.of_nat n * k_fail c)%N, (fe + N.of_nat n * (if is_failure c then 1 else 0))%N, ONormal).
+Lemma is_failure_not_ok c : is_failure c = negb (rep_is_ok c).
 Proof.
-  intros V. induction n as [|n IH]; intros s ft fe G c.
-  - exists s. split; [exact G|]. cbn [runner_loop repeat]. rewrite !N.mul_0_l, !N.add_0_r. reflexivity.
-  - cbn [runner_loop]. rewrite (run_rep_closed exc cfg tests s V G).
-    destruct (IH (rep_state cfg tests) (ft + k_fail (cn (rep_state cfg tests)))%N
-                 (if is_failure (cn (rep_state cfg tests)) then fe + 1 else fe)%N (rep_state_good cfg tests)) as [s' [G' E]].
-    exists s'. split; [exact G'|]. rewrite E. cbn [repeat]. unfold rep_model. cbn [cn rep_state]. fold c.
-    rewrite Nat2N.inj_succ, !N.mul_succ_l.
-    replace (ft + k_fail c + N.of_nat n * k_fail c)%N with (ft + (N.of_nat n * k_fail c + k_fail c))%N by lia.
-    destruct (is_failure c).
-    + replace (fe + 1 + N.of_nat n * 1)%N with (fe + (N.of_nat n * 1 + 1))%N by lia. reflexivity.
-    + replace (fe + N.of_nat n * 0)%N with (fe + (N.of_nat n * 0 + 0))%N by lia. reflexivity.
+  unfold is_failure, rep_is_ok. destruct (N.eqb_spec (k_fail c) 0); cbn [negb orb andb]; [|reflexivity].
+  destruct (N.eqb_spec (k_run c + k_ign c) 0); destruct (N.ltb_spec 0 (k_run c + k_ign c)); try lia; reflexivity.
 Qed.
-
 Lemma exit_value_small z : (z < 2 ^ 31)%Z -> (0 <= z)%Z -> cast TInt (cast TULong z) = z.
 Proof. intros H H0. rewrite (cast_id' TULong) by (cbn; lia). apply cast_id'. cbn. lia. Qed.
 
-Lemma throws_ok_of_valid exc scn : valid exc scn = true -> throws_ok exc (s_cfg scn) (s_tests scn) = true.
+(* ------------------------------------------------------------------ programs that depend on the repetition *)
+Lemma stmt_at_throw r l : existsb is_throw (map (stmt_at r) l) = true -> existsb rstmt_throws l = true.
 Proof.
-  unfold valid, throws_ok. intro V. apply andb_true_iff in V. destruct V as [V _]. apply andb_true_iff in V. destruct V as [V _].
-  apply andb_true_iff in V. destruct V as [A B].
-  apply forallb_forall. intros t Ht. unfold ok_test.
-  destruct (has_throw t) eqn:HT; [|reflexivity].
-  assert (E : existsb has_throw (s_tests scn) = true) by (apply existsb_exists; exists t; split; assumption).
+  induction l as [|x l IH]; cbn; [discriminate|]. rewrite !orb_true_iff. intros [H|H]; [left | right; exact (IH H)].
+  destruct x as [a | c a b]; cbn in *; [exact H|]. destruct (holds c r); rewrite H; [reflexivity | apply orb_true_r].
+Qed.
+Lemma at_rep_throw r t : has_throw (at_rep r t) = true -> rhas_throw t = true.
+Proof.
+  unfold has_throw, rhas_throw, at_rep. cbn [t_setup t_body t_teardown]. rewrite !existsb_app, !orb_true_iff.
+  intros [H|[H|H]]; apply stmt_at_throw in H; tauto.
+Qed.
+Lemma prog_at_ok exc cfg tests :
+  (exc || negb (existsb rhas_throw tests)) = true -> (c_rethrow cfg && existsb rhas_throw tests) = false ->
+  forall r, throws_ok exc cfg (prog_at r tests) = true.
+Proof.
+  intros A B r. apply forallb_forall. intros t Ht. unfold prog_at in Ht. apply in_map_iff in Ht. destruct Ht as [rt [<- Hrt]].
+  unfold ok_test. destruct (has_throw (at_rep r rt)) eqn:HT; [|reflexivity].
+  assert (E : existsb rhas_throw tests = true) by (apply existsb_exists; exists rt; split; [exact Hrt | exact (at_rep_throw r rt HT)]).
   rewrite E in A, B. cbn. destruct exc; [|discriminate A].
-  destruct (c_rethrow (s_cfg scn)); [discriminate B | reflexivity].
+  destruct (c_rethrow cfg); [discriminate B | reflexivity].
+Qed.
+Lemma throws_ok_of_valid exc scn : valid exc scn = true -> forall r, throws_ok exc (s_cfg scn) (prog_at r (s_tests scn)) = true.
+Proof.
+  unfold valid. intro V. apply andb_true_iff in V. destruct V as [V _]. apply andb_true_iff in V. destruct V as [V _].
+  apply andb_true_iff in V. destruct V as [A B]. apply prog_at_ok; [exact A|].
+  destruct (c_rethrow (s_cfg scn) && existsb rhas_throw (s_tests scn)); [discriminate B | reflexivity].
 Qed.
 
-Theorem run_meets_spec exc scn : valid exc scn = true -> spec scn (run exc scn) = true.
+(* ------------------------------------------------------------------ the repeat loop and the returned value *)
+Definition rep_model (cfg : config) (tests : list test) : rep_obs := rep_obs_of cfg (rep_state cfg tests) ONormal.
+
+(* the repetition numbers loop, loop+1, ..., loop+n-1 *)
+Fixpoint idx_from (loop : N) (n : nat) : list N := match n with O => [] | S n' => loop :: idx_from (loop + 1)%N n' end.
+Lemma idx_from_seq : forall n loop, idx_from loop n = map N.of_nat (seq (N.to_nat loop) n).
 Proof.
-  intro V. pose proof (throws_ok_of_valid exc scn V) as TO.
-  unfold valid in V. apply andb_true_iff in V. destruct V as [V Vn]. apply andb_true_iff in V. destruct V as [V Vf].
-  apply andb_true_iff in V. destruct V as [_ Vr].
-  unfold spec. destruct (c_rethrow (s_cfg scn) && existsb has_throw (s_tests scn)) eqn:RT; [reflexivity|].
-  unfold run, run_from. destruct (c_cli (s_cfg scn)) eqn:CLI.
-  - assert (G0 : good st0) by (repeat split).
-    destruct (runner_loop_closed exc (s_cfg scn) (s_tests scn) TO (N.to_nat (c_repeat (s_cfg scn))) st0 0%N 0%N G0) as [s' [_ E]].
-    rewrite E. cbn [fst is_normal negb o_escaped o_reps o_ret]. rewrite repeat_length, N2Nat.id, N.eqb_refl. cbn [andb].
-    rewrite forallb_repeat by (unfold rep_model; apply rep_ok_model). cbn [andb].
-    set (c := rep_counts (s_cfg scn) (number 0%N (s_tests scn))) in *.
-    set (n := c_repeat (s_cfg scn)) in *.
-    unfold exit_value. rewrite !N.add_0_l.
-    assert (Hn : (Z.of_N n < 2 ^ 31)%Z) by lia. assert (Hf : (Z.of_N n * Z.of_N (k_fail c) < 2 ^ 31)%Z) by lia.
-    destruct (N.eqb_spec (n * k_fail c) 0) as [Z0|NZ].
-    + (* no failure recorded in any repetition *)
-      rewrite exit_value_small by (destruct (is_failure c); lia).
-      unfold rep_is_ok. unfold is_failure.
-      destruct (N.eqb_spec n 0) as [N0|N0].
-      * rewrite N0. cbn. rewrite orb_true_r. reflexivity.
-      * assert (F0 : k_fail c = 0%N) by lia. rewrite F0. cbn [N.eqb negb orb andb].
-        destruct (N.eqb_spec (k_run c + k_ign c) 0) as [R|R].
-        -- rewrite orb_false_r. destruct (N.ltb_spec 0 (k_run c + k_ign c)); [lia|]. apply eqb_true_iff. lia.
-        -- rewrite orb_false_r. destruct (N.ltb_spec 0 (k_run c + k_ign c)); [|lia]. apply eqb_true_iff. lia.
-    + rewrite exit_value_small by lia.
-      assert (n <> 0 /\ k_fail c <> 0)%N as [N0 F0] by lia.
-      unfold rep_is_ok. destruct (N.eqb_spec (k_fail c) 0); [contradiction|]. destruct (N.eqb_spec n 0); [contradiction|].
-      cbn [andb orb]. apply eqb_true_iff. lia.
-  - assert (G0 : good st0) by (repeat split).
-    rewrite (run_rep_closed exc (s_cfg scn) (s_tests scn) st0 TO G0).
-    cbn [fst is_normal negb o_escaped o_reps o_ret length forallb is_none]. rewrite rep_ok_model. reflexivity.
+  induction n as [|n IH]; intro loop; [reflexivity|]. cbn [idx_from seq map]. rewrite N2Nat.id, IH, N.add_1_r, N2Nat.inj_succ. reflexivity.
+Qed.
+Lemma rep_index_idx n : rep_index n = idx_from 0%N (N.to_nat n).
+Proof. unfold rep_index. rewrite idx_from_seq. reflexivity. Qed.
+Lemma idx_from_length : forall n loop, length (idx_from loop n) = n.
+Proof. induction n as [|n IH]; intro loop; cbn; [reflexivity|]. rewrite IH. reflexivity. Qed.
+Lemma idx_from_nth : forall n loop j x, nth_error (idx_from loop n) j = Some x -> x = (loop + N.of_nat j)%N.
+Proof.
+  induction n as [|n IH]; intros loop j x H; [destruct j; discriminate H|].
+  destruct j as [|j]; cbn in H.
+  - inversion H; subst. lia.
+  - apply IH in H. lia.
+Qed.
+
+(* what the two accumulators of the loop hold after the repetitions in L; f j = the counters of repetition j *)
+Section Acc.
+  Variable f : N -> cnt.
+  Definition sum_fail (L : list N) : N := fold_right (fun j a => (k_fail (f j) + a)%N) 0%N L.
+  Definition n_failed (L : list N) : N := N.of_nat (length (filter (fun j => is_failure (f j)) L)).
+
+  Lemma n_failed_zero L : n_failed L = 0%N <-> forallb (fun j => rep_is_ok (f j)) L = true.
+  Proof.
+    unfold n_failed. induction L as [|j L IH]; cbn [filter forallb length]; [tauto|].
+    rewrite (is_failure_not_ok (f j)). destruct (rep_is_ok (f j)); cbn [negb andb length].
+    - exact IH.
+    - split; [lia | discriminate].
+  Qed.
+  Lemma sum_fail_nonzero L : sum_fail L <> 0%N -> n_failed L <> 0%N.
+  Proof.
+    unfold n_failed, sum_fail. induction L as [|j L IH]; cbn [fold_right filter]; [tauto|]. intro H.
+    unfold is_failure at 1. destruct (N.eqb_spec (k_fail (f j)) 0) as [E|E]; cbn [negb orb].
+    - rewrite E in H. destruct (k_run (f j) + k_ign (f j) =? 0)%N; cbn [length]; [lia | apply IH; lia].
+    - cbn [length]. lia.
+  Qed.
+  Lemma n_failed_le L : (n_failed L <= N.of_nat (length L))%N.
+  Proof. unfold n_failed. induction L as [|j L IH]; cbn [filter length]; [lia|]. destruct (is_failure (f j)); cbn [length]; lia. Qed.
+
+  (* the returned value is zero exactly when every repetition was OK *)
+  Lemma exit_value_zero_iff L :
+    Z.of_N (sum_fail L) < 2 ^ 31 -> Z.of_nat (length L) < 2 ^ 31 ->
+    (exit_value (sum_fail L) (n_failed L) = 0 <-> forallb (fun j => rep_is_ok (f j)) L = true).
+  Proof.
+    intros H1 H2. rewrite <- n_failed_zero. pose proof (n_failed_le L) as LE. pose proof (sum_fail_nonzero L) as NZ.
+    unfold exit_value. rewrite exit_value_small by (destruct (sum_fail L =? 0)%N; lia).
+    destruct (N.eqb_spec (sum_fail L) 0) as [E|E]; lia.
+  Qed.
+End Acc.
+
+Definition cnt_at (cfg : config) (tests : list rtest) (j : N) : cnt := rep_counts cfg (number 0%N (prog_at j tests)).
+
+Lemma runner_loop_closed exc cfg tests :
+  (forall j, throws_ok exc cfg (prog_at j tests) = true) ->
+  forall n loop s ft fe, good s ->
+  exists s', good s' /\
+    runner_loop exc cfg tests n loop s ft fe =
+    (map (fun j => rep_model cfg (prog_at j tests)) (idx_from loop n), s',
+     (ft + sum_fail (cnt_at cfg tests) (idx_from loop n))%N, (fe + n_failed (cnt_at cfg tests) (idx_from loop n))%N, ONormal).
+Proof.
+  intros V. induction n as [|n IH]; intros loop s ft fe G.
+  - exists s. split; [exact G|]. cbn [runner_loop idx_from map]. unfold sum_fail, n_failed. cbn. rewrite !N.add_0_r. reflexivity.
+  - cbn [runner_loop]. rewrite (run_rep_closed exc cfg (prog_at loop tests) s (V loop) G).
+    destruct (IH (loop + 1)%N (rep_state cfg (prog_at loop tests)) (ft + k_fail (cn (rep_state cfg (prog_at loop tests))))%N
+                 (if is_failure (cn (rep_state cfg (prog_at loop tests))) then fe + 1 else fe)%N (rep_state_good cfg _)) as [s' [G' E]].
+    exists s'. split; [exact G'|]. rewrite E. cbn [idx_from map]. unfold rep_model. cbn [cn rep_state].
+    unfold sum_fail, n_failed. cbn [fold_right filter]. fold (cnt_at cfg tests loop).
+    fold (sum_fail (cnt_at cfg tests) (idx_from (loop + 1) n)).
+    destruct (is_failure (cnt_at cfg tests loop)); cbn [length];
+      (apply f_equal2; [apply f_equal2; [apply f_equal2; [reflexivity | lia] | lia] | reflexivity]).
+Qed.
+
+Lemma reps_ok_model scn : forall n loop,
+  reps_ok scn loop (map (fun j => rep_model (s_cfg scn) (prog_at j (s_tests scn))) (idx_from loop n)) = true.
+Proof.
+  induction n as [|n IH]; intro loop; [reflexivity|]. cbn [idx_from map reps_ok]. rewrite IH, andb_true_r.
+  unfold rep_tests, rep_model. apply rep_ok_model.
+Qed.
+
+Lemma eff_repeat_small n : Z.of_N n < 2 ^ 31 -> Z.of_N (eff_repeat n) < 2 ^ 31.
+Proof. unfold eff_repeat. destruct (N.eqb_spec n 0); lia. Qed.
+Lemma eff_repeat_pos n : (0 < eff_repeat n)%N.
+Proof. unfold eff_repeat. destruct (N.eqb_spec n 0); lia. Qed.
+
+Lemma total_failures_sum scn n : total_failures scn n = sum_fail (cnt_at (s_cfg scn) (s_tests scn)) (idx_from 0%N (N.to_nat n)).
+Proof. unfold total_failures. rewrite rep_index_idx. reflexivity. Qed.
+Lemma every_rep_ok_idx scn n : every_rep_ok scn n = forallb (fun j => rep_is_ok (cnt_at (s_cfg scn) (s_tests scn) j)) (idx_from 0%N (N.to_nat n)).
+Proof. unfold every_rep_ok. rewrite rep_index_idx. reflexivity. Qed.
+
+Lemma valid_parts exc scn : valid exc scn = true ->
+  c_rethrow (s_cfg scn) && existsb rhas_throw (s_tests scn) = false /\
+  Z.of_N (total_failures scn (eff_repeat (c_repeat (s_cfg scn)))) < 2 ^ 31 /\ Z.of_N (c_repeat (s_cfg scn)) < 2 ^ 31.
+Proof.
+  unfold valid. intro V. rewrite !andb_true_iff in V. destruct V as [[[_ B] C] D].
+  repeat split; [|lia|lia]. destruct (c_rethrow (s_cfg scn) && existsb rhas_throw (s_tests scn)); [discriminate B | reflexivity].
 Qed.
 
 (* ------------------------------------------------------------------ the closed form of a whole run *)
 Definition run_closed_form (scn : scenario) : obs :=
   let cfg := s_cfg scn in
-  let c := rep_counts cfg (number 0%N (s_tests scn)) in
   if c_cli cfg
-  then mkObs false (Some (exit_value (c_repeat cfg * k_fail c) (c_repeat cfg * (if is_failure c then 1 else 0))))
-             (repeat (rep_model cfg (s_tests scn)) (N.to_nat (c_repeat cfg)))
-  else mkObs false None [rep_model cfg (s_tests scn)].
+  then let L := idx_from 0%N (N.to_nat (eff_repeat (c_repeat cfg))) in
+       mkObs false (Some (exit_value (sum_fail (cnt_at cfg (s_tests scn)) L) (n_failed (cnt_at cfg (s_tests scn)) L)))
+             (map (fun j => rep_model cfg (prog_at j (s_tests scn))) L)
+  else mkObs false None [rep_model cfg (prog_at 0%N (s_tests scn))].
 
-Lemma run_closed exc scn : throws_ok exc (s_cfg scn) (s_tests scn) = true -> run exc scn = run_closed_form scn.
+Lemma run_closed exc scn : (forall j, throws_ok exc (s_cfg scn) (prog_at j (s_tests scn)) = true) -> run exc scn = run_closed_form scn.
 Proof.
   intro TO. unfold run, run_from, run_closed_form. assert (G0 : good st0) by (repeat split).
   destruct (c_cli (s_cfg scn)).
-  - destruct (runner_loop_closed exc (s_cfg scn) (s_tests scn) TO (N.to_nat (c_repeat (s_cfg scn))) st0 0%N 0%N G0) as [s' [_ E]].
-    rewrite E. cbn [fst is_normal negb]. rewrite N2Nat.id, !N.add_0_l. reflexivity.
-  - rewrite (run_rep_closed exc (s_cfg scn) (s_tests scn) st0 TO G0). reflexivity.
+  - destruct (runner_loop_closed exc (s_cfg scn) (s_tests scn) TO (N.to_nat (eff_repeat (c_repeat (s_cfg scn)))) 0%N st0 0%N 0%N G0) as [s' [_ E]].
+    rewrite E. cbn [fst is_normal negb]. rewrite !N.add_0_l. reflexivity.
+  - rewrite (run_rep_closed exc (s_cfg scn) (prog_at 0%N (s_tests scn)) st0 (TO 0%N) G0). reflexivity.
+Qed.
+
+Theorem run_meets_spec exc scn : valid exc scn = true -> spec scn (run exc scn) = true.
+Proof.
+  intro V. pose proof (throws_ok_of_valid exc scn V) as TO. destruct (valid_parts exc scn V) as [RT [Vf Vn]].
+  unfold spec. rewrite RT. rewrite (run_closed exc scn TO). unfold run_closed_form.
+  destruct (c_cli (s_cfg scn)) eqn:CLI; cbn [o_escaped o_reps o_ret negb andb].
+  - rewrite map_length, idx_from_length, N2Nat.id, N.eqb_refl. cbn [andb]. rewrite reps_ok_model. cbn [andb].
+    rewrite every_rep_ok_idx. rewrite total_failures_sum in Vf. apply eff_repeat_small in Vn.
+    set (L := idx_from 0%N (N.to_nat (eff_repeat (c_repeat (s_cfg scn))))) in *.
+    assert (HL : Z.of_nat (length L) < 2 ^ 31) by (unfold L; rewrite idx_from_length; lia).
+    pose proof (exit_value_zero_iff (cnt_at (s_cfg scn) (s_tests scn)) L Vf HL) as EV.
+    apply eqb_true_iff. destruct (forallb _ L).
+    + apply Z.eqb_eq. apply EV. reflexivity.
+    + apply Z.eqb_neq. intro H. apply EV in H. discriminate H.
+  - cbn [length reps_ok is_none]. unfold rep_tests. rewrite rep_ok_model. reflexivity.
 Qed.
 
 (* builds with and without exception support are indistinguishable on programs that cannot throw *)
-Theorem build_independent scn : existsb has_throw (s_tests scn) = false -> run true scn = run false scn.
+Theorem build_independent scn : existsb rhas_throw (s_tests scn) = false -> run true scn = run false scn.
 Proof.
   intro NT.
-  assert (forall exc, throws_ok exc (s_cfg scn) (s_tests scn) = true) as TO.
-  { intro exc. apply forallb_forall. intros t Ht. unfold ok_test.
-    destruct (has_throw t) eqn:E; [|reflexivity].
-    assert (existsb has_throw (s_tests scn) = true) by (apply existsb_exists; exists t; split; assumption). congruence. }
+  assert (forall exc j, throws_ok exc (s_cfg scn) (prog_at j (s_tests scn)) = true) as TO.
+  { intros exc j. apply prog_at_ok; rewrite NT; [apply orb_true_r | apply andb_false_r]. }
   rewrite !run_closed by apply TO. reflexivity.
 Qed.
 
@@ -660,12 +740,30 @@ Proof.
 Qed.
 
 (* ------------------------------------------------------------------ whole runs *)
-Lemma reps_of_run exc scn rp : valid exc scn = true -> In rp (o_reps (run exc scn)) -> rp = rep_model (s_cfg scn) (s_tests scn).
+(* repetition number j of a run is the model repetition of the program as it behaves in repetition j *)
+Lemma reps_of_run_nth exc scn j rp :
+  valid exc scn = true -> nth_error (o_reps (run exc scn)) j = Some rp -> rp = rep_model (s_cfg scn) (prog_at (N.of_nat j) (s_tests scn)).
 Proof.
   intros V H. rewrite (run_closed exc scn (throws_ok_of_valid exc scn V)) in H. unfold run_closed_form in H.
   destruct (c_cli (s_cfg scn)); cbn [o_reps] in H.
-  - apply repeat_spec in H. exact H.
-  - destruct H as [H|[]]. symmetry. exact H.
+  - destruct (nth_error (idx_from 0%N (N.to_nat (eff_repeat (c_repeat (s_cfg scn))))) j) as [x|] eqn:E.
+    + rewrite (map_nth_error _ _ _ E) in H. inversion H; subst. apply idx_from_nth in E. rewrite E, N.add_0_l. reflexivity.
+    + apply nth_error_None in E. assert (NE : nth_error (map (fun j0 : N => rep_model (s_cfg scn) (prog_at j0 (s_tests scn)))
+                                                          (idx_from 0%N (N.to_nat (eff_repeat (c_repeat (s_cfg scn)))))) j <> None) by congruence.
+      apply nth_error_Some in NE. rewrite map_length in NE. lia.
+  - destruct j as [|j]; cbn in H; [inversion H; reflexivity | destruct j; discriminate H].
+Qed.
+Lemma reps_of_run exc scn rp :
+  valid exc scn = true -> In rp (o_reps (run exc scn)) -> exists j, rp = rep_model (s_cfg scn) (prog_at j (s_tests scn)).
+Proof.
+  intros V H. apply In_nth_error in H. destruct H as [j H]. exists (N.of_nat j). exact (reps_of_run_nth exc scn j rp V H).
+Qed.
+Lemma reps_length exc scn :
+  valid exc scn = true ->
+  length (o_reps (run exc scn)) = if c_cli (s_cfg scn) then N.to_nat (eff_repeat (c_repeat (s_cfg scn))) else 1%nat.
+Proof.
+  intros V. rewrite (run_closed exc scn (throws_ok_of_valid exc scn V)). unfold run_closed_form.
+  destruct (c_cli (s_cfg scn)); cbn [o_reps]; [rewrite map_length, idx_from_length|]; reflexivity.
 Qed.
 
 Lemma number_length {A} (l : list A) : forall k, length (number k l) = length l.
@@ -677,45 +775,73 @@ Proof.
   destruct (selected cfg (snd x)), (runs cfg (snd x)); cbn [andb negb length]; lia.
 Qed.
 
-Theorem summary_true exc scn rp :
-  valid exc scn = true -> In rp (o_reps (run exc scn)) ->
-  let c := rep_counts (s_cfg scn) (number 0%N (s_tests scn)) in
+(* the summary of repetition number j carries the true counts of the program as it behaves in repetition j *)
+Theorem summary_true exc scn j rp :
+  valid exc scn = true -> nth_error (o_reps (run exc scn)) j = Some rp ->
+  let c := rep_want scn (N.of_nat j) in
   exists m, r_summary rp = Some m /\
     m_tests m = N.of_nat (length (s_tests scn)) /\ m_run m = k_run c /\ m_checks m = k_checks c /\ m_ign m = k_ign c /\ m_filt m = k_filt c /\
     (m_tests m = m_run m + m_ign m + m_filt m)%N /\
     m_nfail m = (if (0 <? k_fail c)%N then Some (k_fail c) else None) /\
-    r_fails rp = rep_fails (s_cfg scn) (number 0%N (s_tests scn)) /\
+    r_fails rp = rep_fails (s_cfg scn) (rep_tests scn (N.of_nat j)) /\
     k_fail c = N.of_nat (length (r_fails rp)) /\
     (m_ok m = true <-> (k_fail c = 0 /\ 0 < k_run c + k_ign c)%N).
 Proof.
-  intros V H c. rewrite (reps_of_run exc scn rp V H). unfold rep_model, rep_obs_of. cbn [is_normal r_summary r_fails rep_state out cn]. fold c.
+  intros V H c. rewrite (reps_of_run_nth exc scn j rp V H). unfold rep_model, rep_obs_of. cbn [is_normal r_summary r_fails rep_state out cn].
+  unfold rep_want, rep_tests in c. fold c.
   exists (mk_summary c). split; [reflexivity|].
   pose proof (summary_ok_mk c) as S. unfold summary_ok in S. rewrite !andb_true_iff in S.
   destruct S as [[S1 S2] [[[[S3 S4] S5] S6] S7]]. apply N.eqb_eq in S3, S4, S5, S6, S7.
-  pose proof (number_length (s_tests scn) 0%N) as LT.
-  pose proof (counts_identity (s_cfg scn) (number 0%N (s_tests scn))) as ID. cbv zeta in ID. fold c in ID.
+  pose proof (number_length (prog_at (N.of_nat j) (s_tests scn)) 0%N) as LT. unfold prog_at in LT at 2. rewrite map_length in LT.
+  pose proof (counts_identity (s_cfg scn) (number 0%N (prog_at (N.of_nat j) (s_tests scn)))) as ID. cbv zeta in ID. fold c in ID.
   repeat split; try assumption.
   - rewrite S3. unfold c, rep_counts. cbn [k_tests]. rewrite LT. reflexivity.
   - revert S2. generalize (m_nfail (mk_summary c)) (if (0 <? k_fail c)%N then Some (k_fail c) else None).
     intros [a|] [b|] E; cbn in E; try discriminate E; [apply N.eqb_eq in E; subst|]; reflexivity.
-  - apply tests_fails.
+  - unfold rep_tests. apply tests_fails.
   - rewrite tests_fails. reflexivity.
   - apply eqb_prop in S1. rewrite S1 in H0. unfold rep_is_ok in H0. apply andb_true_iff in H0. destruct H0 as [A _]. apply N.eqb_eq in A. exact A.
   - apply eqb_prop in S1. rewrite S1 in H0. unfold rep_is_ok in H0. apply andb_true_iff in H0. destruct H0 as [_ B]. apply N.ltb_lt in B. exact B.
   - intros [A B]. apply eqb_prop in S1. rewrite S1. unfold rep_is_ok. rewrite A. cbn. apply N.ltb_lt. exact B.
 Qed.
 
+(* the summary of a model repetition reads OK exactly when that repetition is OK *)
+Lemma rep_model_ok cfg tests : exists m, r_summary (rep_model cfg tests) = Some m /\ m_ok m = rep_is_ok (rep_counts cfg (number 0%N tests)).
+Proof.
+  unfold rep_model, rep_obs_of. cbn [is_normal r_summary rep_state cn]. eexists. split; [reflexivity|].
+  unfold mk_summary. cbn [m_ok]. rewrite is_failure_not_ok, negb_involutive. reflexivity.
+Qed.
+
+(* the returned value, over the per-repetition outcomes: zero iff every repetition (each with its own program) is OK,
+   iff every printed summary reads OK *)
 Theorem exit_value_iff exc scn :
   valid exc scn = true -> c_cli (s_cfg scn) = true ->
+  let n := eff_repeat (c_repeat (s_cfg scn)) in
+  length (o_reps (run exc scn)) = N.to_nat n /\ (0 < n)%N /\
   exists z, o_ret (run exc scn) = Some z /\
-    (z = 0 <-> (c_repeat (s_cfg scn) = 0%N \/ rep_is_ok (rep_counts (s_cfg scn) (number 0%N (s_tests scn))) = true)).
+    (z = 0 <-> forall j, (j < n)%N -> rep_is_ok (rep_want scn j) = true) /\
+    (z = 0 <-> forall rp, In rp (o_reps (run exc scn)) -> exists m, r_summary rp = Some m /\ m_ok m = true).
 Proof.
-  intros V CLI. pose proof (run_meets_spec exc scn V) as S. unfold spec in S.
-  assert (RT : c_rethrow (s_cfg scn) && existsb has_throw (s_tests scn) = false).
-  { unfold valid in V. rewrite !andb_true_iff in V. destruct V as [[[_ B] _] _]. destruct (c_rethrow (s_cfg scn) && existsb has_throw (s_tests scn)); [discriminate B | reflexivity]. }
+  intros V CLI n. pose proof (reps_length exc scn V) as LEN. rewrite CLI in LEN. split; [exact LEN|]. split; [apply eff_repeat_pos|].
+  pose proof (run_meets_spec exc scn V) as S. unfold spec in S. destruct (valid_parts exc scn V) as [RT _].
   rewrite RT, CLI in S. rewrite !andb_true_iff in S. destruct S as [_ S].
-  destruct (o_ret (run exc scn)) as [z|]; [|discriminate S]. exists z. split; [reflexivity|].
-  apply eqb_prop in S. rewrite <- Z.eqb_eq, S, orb_true_iff, N.eqb_eq. tauto.
+  destruct (o_ret (run exc scn)) as [z|] eqn:RET; [|discriminate S]. exists z. split; [reflexivity|].
+  apply eqb_prop in S. fold n in S.
+  assert (A : z = 0 <-> forall j, (j < n)%N -> rep_is_ok (rep_want scn j) = true).
+  { rewrite <- Z.eqb_eq, S. unfold every_rep_ok. rewrite forallb_forall. unfold rep_index. split.
+    - intros H j Hj. apply H. apply in_map_iff. exists (N.to_nat j). split; [apply N2Nat.id | apply in_seq; lia].
+    - intros H j Hj. apply in_map_iff in Hj. destruct Hj as [k [<- Hk]]. apply in_seq in Hk. apply H. lia. }
+  split; [exact A|]. rewrite A. split.
+  - intros H rp Hin. apply In_nth_error in Hin. destruct Hin as [j Hj].
+    assert (Hlt : (j < length (o_reps (run exc scn)))%nat) by (apply nth_error_Some; congruence).
+    rewrite (reps_of_run_nth exc scn j rp V Hj). destruct (rep_model_ok (s_cfg scn) (prog_at (N.of_nat j) (s_tests scn))) as [m [M1 M2]].
+    exists m. split; [exact M1|]. rewrite M2. apply (H (N.of_nat j)). lia.
+  - intros H j Hj. assert (Hlt : (N.to_nat j < length (o_reps (run exc scn)))%nat) by lia.
+    apply nth_error_Some in Hlt. destruct (nth_error (o_reps (run exc scn)) (N.to_nat j)) as [rp|] eqn:E; [|congruence].
+    destruct (H rp (nth_error_In _ _ E)) as [m [M1 M2]].
+    rewrite (reps_of_run_nth exc scn _ rp V E), N2Nat.id in M1.
+    destruct (rep_model_ok (s_cfg scn) (prog_at j (s_tests scn))) as [m' [M1' M2']]. rewrite M1 in M1'. inversion M1'; subst m'.
+    unfold rep_want, rep_tests. rewrite <- M2'. exact M2.
 Qed.
 
 (* the runner's size_t -> int conversion: with 2^32 recorded failures the returned value is 0 (a stated limit, not reachable in practice) *)
@@ -732,27 +858,47 @@ Proof.
   intros V fin. pose proof (throws_ok_of_valid exc scn V) as TO.
   assert (G : good fin).
   { unfold fin, run_from. assert (G0 : good st0) by (repeat split). destruct (c_cli (s_cfg scn)).
-    - destruct (runner_loop_closed exc (s_cfg scn) (s_tests scn) TO (N.to_nat (c_repeat (s_cfg scn))) st0 0%N 0%N G0) as [s' [G' E]].
+    - destruct (runner_loop_closed exc (s_cfg scn) (s_tests scn) TO (N.to_nat (eff_repeat (c_repeat (s_cfg scn)))) 0%N st0 0%N 0%N G0) as [s' [G' E]].
       rewrite E. exact G'.
-    - rewrite (run_rep_closed exc (s_cfg scn) (s_tests scn) st0 TO G0). apply rep_state_good. }
+    - rewrite (run_rep_closed exc (s_cfg scn) (prog_at 0%N (s_tests scn)) st0 (TO 0%N) G0). apply rep_state_good. }
   destruct G as [D [O C]]. repeat split; try assumption.
-  - rewrite (reps_of_run exc scn rp V H) in H0. unfold rep_model, rep_obs_of in H0. cbn [r_events rep_state out] in H0.
+  - destruct (reps_of_run exc scn rp V H) as [j ->]. unfold rep_model, rep_obs_of in H0. cbn [r_events rep_state out] in H0.
     rewrite tests_events in H0. apply in_map_iff in H0. destruct H0 as [x [<- _]]. reflexivity.
-  - rewrite (reps_of_run exc scn rp V H) in H0. unfold rep_model, rep_obs_of in H0. cbn [r_events rep_state out] in H0.
+  - destruct (reps_of_run exc scn rp V H) as [j ->]. unfold rep_model, rep_obs_of in H0. cbn [r_events rep_state out] in H0.
     rewrite tests_events in H0. apply in_map_iff in H0. destruct H0 as [x [<- _]]. cbn [e_depth]. pose proof slots_ge_2. lia.
 Qed.
 
 (* ------------------------------------------------------------------ the hypotheses are satisfiable: a concrete program *)
-Definition ex_tests : list test :=
-  [ mkTest false true 10 [SCheck] [SCheck; SFailX 0 12; SCheck] [SFailC 1 3; SNop] [] [7%N];
-    mkTest false true 20 [SThrowStd; SCheck] [SCheck] [SThrowOther] [5%N] [];
-    mkTest true true 30 [] [SFailX 0 31] [] [] [];
-    mkTest false false 40 [] [SCheck] [] [] [] ].
+Definition ex_tests : list rtest :=
+  [ mkRTest false true 10 [RS SCheck] [RS SCheck; RS (SFailX 0 12); RS SCheck] [RS (SFailC 1 3); RS SNop] [] [RL 7%N];
+    mkRTest false true 20 [RS SThrowStd; RS SCheck] [RS SCheck] [RS SThrowOther] [RL 5%N] [];
+    mkRTest true true 30 [] [RS (SFailX 0 31)] [] [] [];
+    mkRTest false false 40 [] [RS SCheck] [] [] [] ].
 Definition ex_scn : scenario := mkScn (mkCfg true false true false 3) ex_tests.
 Example ex_valid : valid true ex_scn = true. Proof. vm_compute. reflexivity. Qed.
 Example ex_spec : spec ex_scn (run true ex_scn) = true. Proof. vm_compute. reflexivity. Qed.
 Example ex_ret : o_ret (run true ex_scn) = Some 18. Proof. vm_compute. reflexivity. Qed.
-Example ex_ok_test : ok_test true false (nth 1 ex_tests (mkTest false true 0 [] [] [] [] [])) = true. Proof. reflexivity. Qed.
-Definition ex_scn_nothrow : scenario := mkScn (mkCfg false false false true 1) [nth 0 ex_tests (mkTest false true 0 [] [] [] [] []); nth 2 ex_tests (mkTest false true 0 [] [] [] [] [])].
+Example ex_ok_test : ok_test true false (at_rep 0 (nth 1 ex_tests (mkRTest false true 0 [] [] [] [] []))) = true. Proof. reflexivity. Qed.
+Definition ex_scn_nothrow : scenario := mkScn (mkCfg false false false true 1) [nth 0 ex_tests (mkRTest false true 0 [] [] [] [] []); nth 2 ex_tests (mkRTest false true 0 [] [] [] [] [])].
 Example ex_valid_noexc : valid false ex_scn_nothrow = true. Proof. vm_compute. reflexivity. Qed.
 Example ex_build_independent : run true ex_scn_nothrow = run false ex_scn_nothrow. Proof. vm_compute. reflexivity. Qed.
+
+(* a program whose behaviour depends on the repetition: the body fails only in repetition 0 (a static flag), the plugin complains
+   only in repetition 1; -r3.  Repetitions 0 and 1 are not OK, the last one is: the returned value is not zero. *)
+Definition ex_flaky : scenario :=
+  mkScn (mkCfg true false false false 3)
+        [ mkRTest false true 10 [RS SCheck] [RIf (REq 0) (SFailX 0 12) SCheck; RS SCheck] [] [] [RLIf (REq 1) 9%N];
+          mkRTest false true 20 [] [RS SCheck] [] [] [] ].
+Example ex_flaky_valid : valid true ex_flaky = true. Proof. vm_compute. reflexivity. Qed.
+Example ex_flaky_oks : map (fun j => rep_is_ok (rep_want ex_flaky j)) (rep_index 3) = [false; false; true]. Proof. vm_compute. reflexivity. Qed.
+Example ex_flaky_ret : o_ret (run true ex_flaky) = Some 2. Proof. vm_compute. reflexivity. Qed.
+Example ex_flaky_summaries :
+  map (fun r => match r_summary r with Some m => (m_ok m, m_nfail m, m_checks m) | None => (false, None, 0%N) end) (o_reps (run true ex_flaky))
+  = [(false, Some 1%N, 3%N); (false, Some 1%N, 4%N); (true, None, 4%N)].
+Proof. vm_compute. reflexivity. Qed.
+(* an observation that takes the returned value from the last repetition only is rejected by the oracle *)
+Example ex_flaky_last_only_rejected :
+  spec ex_flaky (mkObs false (Some 0) (o_reps (run true ex_flaky))) = false.
+Proof. vm_compute. reflexivity. Qed.
+(* -r0 repeats twice (setRepeatCount) *)
+Example ex_r0 : length (o_reps (run true (mkScn (mkCfg true false false false 0) ex_tests))) = 2%nat. Proof. vm_compute. reflexivity. Qed.
